@@ -69,6 +69,9 @@ type taskResult struct {
 }
 
 func main() {
+	if len(os.Args) >= 3 && os.Args[1] == "replay" {
+		os.Exit(runReplay(os.Args[2:]))
+	}
 	if len(os.Args) < 3 || os.Args[1] != "check" {
 		fmt.Fprintln(os.Stderr, "usage: sdfx-smt check <Cxx> [--tier quick|thorough] [--only re] [--jobs n]")
 		os.Exit(2)
@@ -651,4 +654,65 @@ func replay(l *loaded, disk map[string]string, registry map[string][]string, rep
 		}
 	}
 	return out
+}
+
+// runReplay: `sdfx-smt replay <file.json>...` or `sdfx-smt replay <harness> k=v ...`:
+// runs harnesses natively (go test -overlay) on the given model values.
+func runReplay(args []string) int {
+	work, err := os.MkdirTemp("", "sdfx-smt-")
+	if err != nil {
+		return 2
+	}
+	defer os.RemoveAll(work)
+	l, disk, err := load(work)
+	if err != nil {
+		fmt.Fprintln(os.Stderr, "load:", err)
+		return 2
+	}
+	registry := map[string][]string{}
+	for _, pn := range harnessPkgs() {
+		if sp := l.pkgs[pn]; sp != nil {
+			for name, m := range sp.Members {
+				if _, ok := m.(*ssa.Function); ok && (strings.HasPrefix(name, "vc_") || strings.HasPrefix(name, "vt_")) {
+					registry[pn] = append(registry[pn], name)
+				}
+			}
+			sort.Strings(registry[pn])
+		}
+	}
+	dir := filepath.Join(work, "replay")
+	os.MkdirAll(dir, 0o755)
+	race := false
+	if strings.HasSuffix(args[0], ".json") {
+		for _, f := range args {
+			b, err := os.ReadFile(f)
+			if err != nil {
+				fmt.Fprintln(os.Stderr, err)
+				return 2
+			}
+			if strings.Contains(string(b), "\"property\": \"C10\"") {
+				race = true
+			}
+			os.WriteFile(filepath.Join(dir, filepath.Base(f)), b, 0o644)
+		}
+	} else {
+		vals := map[string]float64{}
+		for _, kv := range args[1:] {
+			if i := strings.IndexByte(kv, '='); i > 0 {
+				f, _ := strconv.ParseFloat(kv[i+1:], 64)
+				vals[kv[:i]] = f
+			}
+		}
+		b, _ := json.Marshal(map[string]interface{}{"harness": args[0], "values": vals})
+		os.WriteFile(filepath.Join(dir, "manual.json"), b, 0o644)
+	}
+	out := replay(l, disk, registry, dir, work, race)
+	rc := 0
+	for f, v := range out {
+		fmt.Printf("%s: %s\n", f, v)
+		if strings.HasPrefix(v, "reproduced") {
+			rc = 1
+		}
+	}
+	return rc
 }
